@@ -876,7 +876,7 @@ func RuleCK1(c *Ctx) {
 	sc := c.Run.Begin("CK1", "every directive handler that derives path parameters (PathParameters) runs the similar-paths check on them on every path that does not end in an error", 2)
 	defer sc.End()
 	pp := c.Func("core", "PathParameters")
-	chk := c.Func("core", "JApiCore.checkSimilarPaths")
+	chk := c.similarPathsCheck(pp)
 	table := c.handlerTable()
 	if pp == nil || chk == nil || len(table) == 0 {
 		sc.Undecided("anchors", "-", "unresolved anchor: core.PathParameters / checkSimilarPaths / handler table")
@@ -944,6 +944,30 @@ func RuleCK1(c *Ctx) {
 			sc.Violation(key, c.P.Pos(fd.Pos()), "the return at "+bad+" can be reached without running checkSimilarPaths on the path parameters: two paths that differ only in a parameter name are accepted when they go through this branch")
 		}
 	}
+}
+
+// similarPathsCheck finds, by signature, the method of JApiCore that takes the result type
+// of PathParameters ([]PathParameter) as its only parameter and returns an error.
+func (c *Ctx) similarPathsCheck(pp *types.Func) *types.Func {
+	core := c.Named("core", "JApiCore")
+	if pp == nil || core == nil {
+		return nil
+	}
+	want := pp.Type().(*types.Signature).Results().At(0).Type()
+	var found *types.Func
+	n := 0
+	for i := 0; i < core.NumMethods(); i++ {
+		m := core.Method(i)
+		sig := m.Type().(*types.Signature)
+		if sig.Params().Len() == 1 && types.Identical(sig.Params().At(0).Type(), want) && sig.Results().Len() == 1 && isErrorType(sig.Results().At(0).Type()) {
+			found = m
+			n++
+		}
+	}
+	if n != 1 {
+		return nil
+	}
+	return found
 }
 
 // freshLocal: the access path is rooted at a local variable that this function
